@@ -169,7 +169,11 @@ fn expected(f: &str, members: &[Option<V>], a1: Option<&V>, a2: Option<&V>) -> E
                         let dec = !t.is_empty() && parts.len() <= 2 && parts.iter().all(|p| !p.is_empty() && p.chars().all(|c| c.is_ascii_digit())) && t.len() <= 15;
                         if dec {
                             out.push(V::Float(s.parse().unwrap()))
-                        } else if t.chars().any(|c| c.is_ascii_digit()) || matches!(t.to_lowercase().as_str(), "inf" | "nan" | "infinity") {
+                        } else if matches!(t.to_lowercase().as_str(), "inf" | "nan" | "infinity") {
+                            // "Strings that cannot be represented as a number will cause this
+                            // function to error": not-a-number and the infinities are not numbers
+                            return Exp::Error;
+                        } else if t.chars().any(|c| c.is_ascii_digit()) {
                             return Exp::Unspecified; // other notations Rust may or may not accept
                         } else {
                             return Exp::Error;
@@ -327,7 +331,7 @@ fn gen_members(u: &mut Choices, bias: &str) -> Vec<Option<V>> {
             0 => {
                 let pool: Vec<&str> = match bias {
                     "int" => vec!["42", "-7", "007", "0", "9999999999", "12x", "1.5", "", "+5", " 5", "abc"],
-                    "float" => vec!["1.5", "42", "-7", "0.25", "12x", "abc", "1e5", ".5", "5.", "inf"],
+                    "float" => vec!["1.5", "42", "-7", "0.25", "12x", "abc", "1e5", ".5", "5.", "inf", "nan", "NaN", "-inf", "Infinity"],
                     "bool" => vec!["true", "FALSE", "True", "no", "abc", "false", ""],
                     "char" => vec!["1", "a", "Z", "ab", "10", "x", " ", "-", "abc", "9"],
                     "epoch" => {
